@@ -68,7 +68,7 @@ func (g *Generator) handleStruct(paramType ast.Expr, paramTypeName string, name 
 
 	obj := named.Obj()
 	pkgPath := obj.Pkg().Path()
-	fullPath, err := getPkgDir(pkgPath)
+	fullPath, err := getPkgDir(pkgPath, g.CommonFlags().Dir)
 	if err != nil {
 		logx.Fatalf("get pkg dir: %s", err)
 	}
